@@ -13,6 +13,10 @@ BUILT = {
  "C09": "statics_sorted (any op sequence), statics_complete, binary_search_correct (core's branch-free loop, transcribed) and get_exact proved; STATICS line and compiled get() compared with the model over all orders of colliding name sets",
  "C16": "mangle_ascii_legal (every ASCII name), mangle_hashed_not_keyword, names_map_tracks proved; identifiers compared with the model, regex/keyword oracle, and named from a rustc-compiled program",
  "C19": "mime_follows_suffix / mime_case_insensitive / mime_consts_exist proved by computation over the tables the translator re-reads from src/staticfiles.rs and the mime crate on every run; both feature builds enumerated completely, mime03 value read back after rustc",
+ "C10": "template_becomes_function, broken_template_reported/_isolated, other_files_ignored, subdir_becomes_module and directory_is_sum_of_entries proved over the model of handle_entries (a writer-monad framing lemma shows every function only appends to plan/stdout/text), with the suffix table regenerated from src/lib.rs; whole OUT_DIR and stdout compared with the model on random trees, every function called through its module path after rustc",
+ "C12": "write_if_changed_spec, write_plan_independent_of_outdir, generated_files_equal_clean_build (for EVERY prior OUT_DIR, which covers every crash point and truncation) and second_run_writes_nothing proved; edit histories with garbage, truncations and builds killed at the k-th write (crash hook) compared with clean builds and with the model's write list, sentinel mtimes",
+ "C17": "reads_are_announced: for every tree and every program over the public API each path the run reads or lists has its own cargo:rerun-if-changed line (invariant through handle_entries, add_files, recursive add_files_as, sass); stdout compared with the model, coverage recomputed independently from the tree",
+ "C18": "template_code_function_of_bytes_and_name, module_decls_permutation_invariant, statics_order_permutation_invariant proved; same template compiled alone / among siblings / elsewhere / twice / under another cwd+environment compared byte for byte and with the model",
  "C20": "static_name_finds_added (every ASCII name, any history), static_name_unknown_is_error, sass_css_added_as_hashed proved over the model of the repaired lookup; legacy lookup refuted on the original witnesses; correspondence through real add_sass_file runs",
 }
 checks = []
